@@ -8,6 +8,7 @@ spec: Emboss/Spec/Text.lean; helper lemmas: Emboss/Lemmas/Text*.lean.
 import Emboss.Lemmas.TextIntWrite
 import Emboss.Lemmas.TextWrite
 import Emboss.Lemmas.TextStruct
+import Emboss.Lemmas.TextLayout
 import Emboss.Model.TextRead
 namespace Emboss.Text
 open Spec Emboss.Deps
@@ -176,6 +177,45 @@ theorem C06_struct_roundtrip_counterexample :
       intro g hg hge
       simp at hg; subst hg; cases hge)
     simp [exData, exBuf, zeroBuf] at this
+
+/-- The round trip for *described* structures — leaves with layout expressions
+(Emboss/Model/TextLayout.lean): conditional fields (`present`), dynamically placed fields and
+arrays with a dynamic element count (one leaf per index, present iff the index is below the
+count), `let` fields inlined.  If the syntactic check `depCheck` passes (everything an emitted
+leaf's condition / location reads lies in bytes covered by emitted, unconditional, statically
+placed leaves that stand earlier in the text), then for every buffer of `size` bits
+`UpdateFromText(WriteToString(·))` into the zeroed buffer succeeds and every emitted leaf that
+exists in the original exists at the same place with the same bits afterwards.  The same
+`update`/`writeText` on the same descriptions is compared with the real code byte for byte
+on every run (driver op `SRT`). -/
+theorem C06_struct_roundtrip_described (size : Nat) (ls : List Leaf) (b : Buf)
+    (h : depCheck size [] ls = true) :
+    ∃ b1, update zeroBuf (writeText (ls.map (Leaf.sem size)) b) = some b1 ∧
+      ∀ l ∈ ls, l.emitted = true → ∀ a, l.loc size b = some a →
+        l.loc size b1 = some a ∧ a.map b1 = a.map b := by
+  have hd : DepOk [] (ls.map (Leaf.sem size)) := by simpa using depCheck_sound size ls [] h
+  obtain ⟨b1, h1, h2⟩ := C06_struct_roundtrip_partial (ls.map (Leaf.sem size)) b hd
+  exact ⟨b1, h1, fun l hl hem a ha => h2 (Leaf.sem size l) (List.mem_map_of_mem hl) hem a ha⟩
+
+/-! Non-vacuity: `struct Foo: let big = n > 1; let at = n * 2; if big: 1 [+1] UInt flag;
+3+at [+n] UInt:8[] data (≤ 2 elements shown); 0 [+1] UInt n` in the text order `n, flag, data[0],
+data[1]`, buffer of 9 bytes. -/
+def exLeaves (nEmitted : Bool) : List Leaf :=
+  [ ⟨.const 1, .const 0, 8, nEmitted⟩,
+    ⟨.gt (.byte 0) (.const 1), .const 8, 8, true⟩,
+    ⟨.gt (.byte 0) (.const 0), .mul (.const 8) (.add (.const 3) (.mul (.byte 0) (.const 2))), 8, true⟩,
+    ⟨.gt (.byte 0) (.const 1), .mul (.const 8) (.add (.const 4) (.mul (.byte 0) (.const 2))), 8, true⟩ ]
+
+/-- n = 2, flag = 9, data at 3 + 4 = 7: 5, 6 -/
+def exBytes : List Nat := [2, 9, 0, 0, 0, 0, 0, 5, 6]
+
+example : depCheck 72 [] (exLeaves true) = true ∧
+    structRoundTrip (exLeaves true) exBytes = some exBytes := by decide +kernel
+
+/-- With `n` not written (Skip) the check fails — and so does the update of the zeroed buffer
+(open finding `skip-field-determines-layout-of-emitted-field`). -/
+example : depCheck 72 [] (exLeaves false) = false ∧
+    structRoundTrip (exLeaves false) exBytes = none := by decide +kernel
 
 /-- Emission order, presence and absence: the write clauses are the fields of
 `fields_in_dependency_order`, in that order, minus those whose `text_output` attribute is
